@@ -12,7 +12,7 @@ FUNCTIONS = ['Instance::eval', 'GetOpCode', 'TryHex', 'CScript::operator<<(int64
 ASSUMPTIONS = base.ASSUMPTIONS + ['a hex token denotes a push of exactly those bytes, a decimal token the push of that number; how eval encodes the push is not prescribed, so the minimal-push policy (MINIMALDATA) must not make a hex token fail',
                                   'OP_CODESEPARATOR via exec is decided under C15 (it leaves a pointer into the temporary script)']
 OUTSIDE = ['more than 3 tokens per exec', 'decimal tokens beyond int32', 'hex tokens longer than 4 bytes']
-BOUNDS = 'every opcode name in both spellings x 3 script versions x executed/unexecuted; decimal tokens from a boundary set plus 1-3 symbolic digits; hex tokens of 1,2,4 bytes with symbolic hex digits; token sequences of length 2-3; invalid tokens'
+BOUNDS = 'every opcode name in both spellings x 3 script versions x executed/unexecuted; decimal tokens from a boundary set plus 1-3 symbolic digits; hex tokens of 1,2,4 bytes with symbolic hex digits and concrete ones of 75,76,255,256,520,521 bytes; token sequences of length 2-3; invalid tokens'
 
 def setup(E): base.setup(E)
 
@@ -24,8 +24,8 @@ NAMES['OP_FALSE'] = 0; NAMES['FALSE'] = 0; NAMES['OP_TRUE'] = 0x51; NAMES['TRUE'
 
 def obligations(tier, seed):
     obs = []
-    def add(tokens, sv, lens, vf=(0, None), symhex=0, symdec=0, tag=''):
-        obs.append(dict(name='eval/%s/sv%d/st%s/vf%d-%s%s' % (' '.join(tokens), sv, '.'.join(map(str, lens)), vf[0], vf[1], tag), tokens=tokens, sv=sv, lens=lens, vf=vf, symhex=symhex, symdec=symdec))
+    def add(tokens, sv, lens, vf=(0, None), symhex=0, symdec=0, tag='', label=None):
+        obs.append(dict(name='eval/%s/sv%d/st%s/vf%d-%s%s' % (label or ' '.join(tokens), sv, '.'.join(map(str, lens)), vf[0], vf[1], tag), tokens=tokens, sv=sv, lens=lens, vf=vf, symhex=symhex, symdec=symdec))
     for sv in (R.BASE, R.WITNESS_V0, R.TAPSCRIPT):
         for n, v in sorted(NAMES.items()):
             if v in R.SIGOPS or n in ('OP_CODESEPARATOR', 'CODESEPARATOR'): continue
@@ -40,6 +40,9 @@ def obligations(tier, seed):
         for t in ['aa', '00', '01', '10', '11', '81', '80', '0102', 'ffff', '01020304', 'deadbeef00', '7f']:
             add([t], sv, (1,))
             add([t], sv, (1,), vf=(1, 0))
+        for nbytes in (75, 76, 255, 256, 520, 521):          # every push form, and the element-size limit
+            add(['ab' * nbytes], sv, (1,), label='hex-%d-bytes' % nbytes)
+            add(['ab' * nbytes, 'OP_SIZE'], sv, (1,), vf=(1, 0), label='hex-%d-bytes OP_SIZE' % nbytes)
         for nb in (1, 2, 4): add(['?' * (2 * nb)], sv, (1,), symhex=1, tag='/symhex')
         for nd in (1, 2, 3): add(['?' * nd], sv, (1,), symdec=1, tag='/symdec')
         for seq in (['1', '2', 'OP_ADD'], ['OP_DUP', 'OP_DROP'], ['0', 'OP_IF', 'OP_ENDIF'], ['OP_1', 'OP_IF'], ['OP_ELSE', '5'], ['2', 'OP_FOO'], ['OP_FOO'], ['xyz'], ['', '3'], ['OP_ADD', 'OP_ADD'],
@@ -119,7 +122,7 @@ def ref_eval(ctx, ob, toks, P):
                 S2.stack.append(R.num_encode(ctx, v) if kind == 'num' else list(v))
                 if len(S2.stack) + len(S2.alt) > R.MAX_STACK: r = dict(ok=0, err=R.ERR('STACK_SIZE'))
             r = dict(ok=1, stack=S2.stack, alt=S2.alt, vf=(S2.vf_size, S2.vf_size if S2.vf_ff is None else S2.vf_ff), nop=S2.nop)
-            if kind == 'push' and len(v) > 75 and ob['sv'] != R.TAPSCRIPT: raise refexec.RefAbort('long push')
+            if kind == 'push' and len(v) > R.MAX_ELEM: r = dict(ok=0, err=R.ERR('PUSH_SIZE'))          # element-size limit: applies to every push, executed or not, in every script version
         if not r['ok']: return dict(ret=0, err=r['err'])
         S.stack = r['stack']; S.alt = r['alt']; S.vf_size = r['vf'][0]; S.vf_ff = None if r['vf'][1] == r['vf'][0] else r['vf'][1]; S.nop = r['nop']
     return dict(ret=1, stack=S.stack, alt=S.alt, vf=(S.vf_size, S.vf_size if S.vf_ff is None else S.vf_ff), nop=z3.simplify(R.B(S.nop, 32)), pos=POS)
